@@ -1797,8 +1797,22 @@ func TestC19(t *testing.T) {
 	}
 	cf := newFile()
 	size := 0
+	cov := map[string]map[string]int{"committee_size": {}, "inner_ring_size": {}, "alphabet_list_size": {}, "notary_disabled": {},
+		"withdraw_fee": {}, "emit_halted_by_inner_ring_size": {}, "emit_halted_g_below_20": {}}
+	st.Extra["coverage"] = cov
+	feeStr := func(p *int64) string {
+		if p == nil {
+			return "unset"
+		}
+		return fmt.Sprint(*p)
+	}
 	run := func(name string, cfg gasEnvCfg, next func(g *gasEnv, gg *gasGen, step int) (gasOp, bool), seed int64) {
 		g := newGasEnv(t, cfg)
+		cov["committee_size"][fmt.Sprint(cfg.NC)]++
+		cov["inner_ring_size"][fmt.Sprint(cfg.IR)]++
+		cov["alphabet_list_size"][fmt.Sprint(len(g.alpha))]++
+		cov["notary_disabled"][fmt.Sprint(cfg.NotaryOff)]++
+		cov["withdraw_fee"][feeStr(cfg.WFee)]++
 		if thorough && size > 380_000 {
 			cf = newFile()
 			size = 0
@@ -1846,6 +1860,12 @@ func TestC19(t *testing.T) {
 				refused = true
 			}
 			st.OutcomeHistogram[op.Kind+"/"+oc]++
+			if op.Kind == "emit" && o.halt {
+				cov["emit_halted_by_inner_ring_size"][fmt.Sprint(len(irl))]++
+				if gb := new(big.Int).Add(gg.balOf(op.To), o.minted); gb.Cmp(bn(20)) < 0 {
+					cov["emit_halted_g_below_20"][gb.String()]++
+				}
+			}
 			fmt.Fprintf(&sig, "%s:%s:%v:%s;", op.Kind, oc, op.Amount, op.Data.Kind)
 			if len(sample) < 8 {
 				sample = append(sample, op.String()+" -> "+oc)
